@@ -96,12 +96,26 @@ def run(tier, seed):
     starts_q = [(C("p", V(0)), C("retract", C("p", V(0)))), (C("retract", C("p", V(0))), C("p", V(0))),
                 (C("retract", C("p", V(0))), C("retract", C("p", V(0))))]
     starts_t = starts_q + [(C("p", V(0)), C("p", V(0))), (C("p", I(2)), C("retract", C("p", I(2)))), (C("retract", C("p", I(2))), C("p", V(0)))]
+    from .. import gen as _g
+    SG = _g.scale_groups()
+    MD = [{}, {"md": True}]
+
+    def fo(scns):
+        for s_ in scns:
+            s_["facts_only"] = ["p", "mf"]
+        return scns
+    BIG = {"budget_extra": 20000000, "must_complete": True}
+    chk.machine_family("more-than-32-facts", fo(SG["manyfacts"] + SG["manyfacts-rest"]), features=features, max_steps=8000,
+                       opts_list=[BIG, dict(BIG, md=True)])
+    if tier == "thorough":
+        chk.machine_family("more-than-1024-facts", fo(SG["manyfacts-big"]), features=features, max_steps=30000,
+                           opts_list=[dict(BIG, budget_extra=200000000), dict(BIG, md=True, budget_extra=200000000)], props=("SnapshotsOK", "DbStepShape"))
     if tier == "quick":
-        chk.machine_family("api-interleavings-d3", api_scenarios(3, [[1, 2, 3]], starts_q), features=features)
+        chk.machine_family("api-interleavings-d3", fo(api_scenarios(3, [[1, 2, 3]], starts_q)), features=features, opts_list=MD)
         chk.machine_family("bodies", body_scenarios(), features=features, cfg="YP-live.cfg",
                            props=("Termination (temporal, WF)", "NeverOutOfFuel", "CleanAfterEnd", "FactIdsUnique", "SnapshotsOK", "DbStepShape"))
     else:
-        chk.machine_family("api-interleavings-d4", api_scenarios(4, [[1, 2, 3], [1], []], starts_t), features=features)
+        chk.machine_family("api-interleavings-d4", fo(api_scenarios(4, [[1, 2, 3], [1], []], starts_t)), features=features, opts_list=MD)
         chk.machine_family("bodies", body_scenarios(), features=features, cfg="YP-live.cfg",
                            props=("Termination (temporal, WF)", "NeverOutOfFuel", "CleanAfterEnd", "FactIdsUnique", "SnapshotsOK", "DbStepShape"))
     chk.exhaustive = True
